@@ -29,6 +29,7 @@ package main
 import (
 	"encoding/json"
 	"fmt"
+	"math/rand"
 	"os"
 	"sort"
 	"strings"
@@ -45,9 +46,11 @@ import (
 func init() { props["C06"] = runC06 }
 
 type c06Case struct {
-	name string
-	t    *vh.Template
-	p    *ast.Policy
+	name   string
+	t      *vh.Template
+	p      *ast.Policy
+	rich   bool     // built by the lazy-matrix stream (vh/gen_partial2.go, gen_partial3.go)
+	labels []string // the cells of the lazy matrix the policy was built for
 }
 
 func policyText(p *ast.Policy) (s string) {
@@ -118,7 +121,18 @@ func c06Axes(g *vh.Gen, cs c06Case, perVar int) []axis {
 		default:
 			ch = g.Universe(vh.TRecord, lits, t.Base.Context, 3, false)
 		}
+		if cs.rich && part != "context" {
+			// the lazy-matrix stream: an ignored entity part ranges over what an unknown entity would range over, so
+			// that `?p in <ignored resource>`, `?p == <ignored principal>` are satisfiable
+			base := map[string]types.Value{"principal": t.Base.Principal, "action": t.Base.Action, "resource": t.Base.Resource}[part]
+			ch = g.Universe(vh.TEntity, lits, base, 5, false)
+		}
 		axes = append(axes, axis{part: part, choices: ch})
+	}
+	// ignore markers nested in the context: completed like unknowns of their kind (the property's ignore clause read
+	// for a part OF a request part, which is what partial_test.go's ignoreAnd / ignoreHas … exercise)
+	for _, n := range t.NestedIgnPaths() {
+		axes = append(axes, axis{part: n.Path, choices: g.Universe(n.Kind, lits, n.Base, 4, false)})
 	}
 	return axes
 }
@@ -169,6 +183,43 @@ func combos(g *vh.Gen, axes []axis, limit int) ([]combo, bool) {
 	return out, false
 }
 
+// c06Diagonals: for a sampled completion space, the points at which every axis that can take the value v takes it
+// (the other axes their first choice): what makes `?p in <ignored resource>`, `?x == context.vn` … satisfiable.
+func c06Diagonals(axes []axis) []combo {
+	seen := map[string]bool{}
+	var out []combo
+	for _, a := range axes {
+		for _, v := range a.choices {
+			key := vh.ShowValue(v)
+			if seen[key] {
+				continue
+			}
+			seen[key] = true
+			c := combo{sub: map[types.String]types.Value{}, ign: map[string]types.Value{}}
+			n := 0
+			for _, b := range axes {
+				pick := b.choices[0]
+				for _, w := range b.choices {
+					if vh.ShowValue(w) == key {
+						pick = w
+						n++
+						break
+					}
+				}
+				if b.part != "" {
+					c.ign[b.part] = pick
+				} else {
+					c.sub[b.name] = pick
+				}
+			}
+			if n >= 2 {
+				out = append(out, c)
+			}
+		}
+	}
+	return out
+}
+
 func completeEnv(envHat eval.Env, cb combo) eval.Env {
 	env := vh.SubstEnv(envHat, cb.sub)
 	if v, ok := cb.ign["principal"]; ok {
@@ -182,6 +233,8 @@ func completeEnv(envHat eval.Env, cb combo) eval.Env {
 	}
 	if v, ok := cb.ign["context"]; ok {
 		env.Context = v
+	} else if vh.ContainsIgn(env.Context) {
+		env.Context = vh.SubstIgnAt(env.Context, "context", cb.ign)
 	}
 	return env
 }
@@ -196,7 +249,7 @@ type c06Failure struct {
 // judge decides the property for one residual over all combos; weak counts error-vs-false differences.
 func c06Judge(cs c06Case, res *ast.Policy, keep bool, cbs []combo) (fails []c06Failure, weak int, origClasses map[string]int) {
 	origClasses = map[string]int{}
-	ignored := len(cs.t.Ignored) > 0
+	ignored := cs.t.HasIgnore()
 	for _, cb := range cbs {
 		env := completeEnv(cs.t.Env, cb)
 		orig := vh.PolicyClass(cs.p, env)
@@ -368,6 +421,9 @@ func c06Run(c *vh.Ctx, g *vh.Gen, cs c06Case, perVar, limit int) c06Outcome {
 	}
 	axes := c06Axes(g, cs, perVar)
 	cbs, exhaustive := combos(g, axes, limit)
+	if cs.rich && !exhaustive {
+		cbs = append(cbs, c06Diagonals(axes)...)
+	}
 	out.ncombos, out.exhaustiv = len(cbs), exhaustive
 	fails, weak, origClasses := c06Judge(cs, res, keep, cbs)
 	c.Res.OracleChecks += len(cbs)
@@ -579,7 +635,7 @@ func runC06(c *vh.Ctx) {
 	g := vh.NewGen(c.Rng)
 	g.PWrong = 0.04
 	b := &vh.Batch{}
-	c.Res.Rule = "hand-written table (every known defect with forbid/unless/scoped variants, sound neighbours, ignore handling; every n-ary node kind with an operand that is directly an unknown next to an operand over an ignored part, in both operand orders, over entity / context / long-typed parts) then random cases: request templates with unknowns in principal/action/resource/context and nested in context records and sets (depth<=3, same unknown reused), ignore markers, x policies generated over the unknown positions (attribute paths, whole-value comparison, membership, has/in/is/like, arithmetic, &&/||/if) x every completion from a universe of the policy's literals, their neighbours and off-type values (sampled above the cap); distinct = distinct (policy, partial env) encodings; non-trivial = the policy mentions at least one unknown or ignored position and at least one completion was evaluated"
+	c.Res.Rule = "hand-written table (every known defect with forbid/unless/scoped variants, sound neighbours, ignore handling; every n-ary node kind with an operand that is directly an unknown next to an operand over an ignored part, in both operand orders, over entity / context / long-typed parts) then random cases: request templates with unknowns in principal/action/resource/context and nested in context records and sets (depth<=3, same unknown reused), ignore markers, x policies generated over the unknown positions (attribute paths, whole-value comparison, membership, has/in/is/like, arithmetic, &&/||/if) x every completion from a universe of the policy's literals, their neighbours and off-type values (sampled above the cap); then the LAZY MATRIX (vh/gen_partial2.go, gen_partial3.go): a text-built table (every lazily evaluated construct with an IGNORED operand - ignored request part, marker that is a context field, marker inside a set - at every operand position next to an unknown operand, when / forbid / unless / scoped) and random cases drawn round-robin over every cell construct (&&, ||, boolean if, value-typed if used whole or through access, is..in, has / . chains, whole use through literals; nested to depth 2) x operand position x operand status (known, unknown, ignored, erroring, container value with a nested variable / nested ignore marker at depth 1-3) over rich templates offering every status at once; ignored entity parts range over the universe of an unknown entity, sampled completion spaces also get the all-equal points; markers nested in the context are completed like ignored parts (widening only; open finding nested-ignore-consumed-whole); distinct = distinct (policy, partial env) encodings; non-trivial = the policy mentions at least one unknown or ignored position and at least one completion was evaluated"
 	intens := 1
 	if os.Getenv("VERIF_INTENSIFY") != "" {
 		intens = 4
@@ -607,6 +663,10 @@ func runC06(c *vh.Ctx) {
 			cases = append(cases, c06Case{name: fmt.Sprintf("rand/%d/%d", i, k), t: t, p: g.PolicyOver(t, 3)})
 		}
 	}
+	nRandom := len(cases) - nTable
+	lazyTable := c06LazyTable()
+	cases = append(cases, lazyTable...)
+	cases = append(cases, c06LazyCases(c, pool, intens)...)
 	perVar, limit := c.N(7, 9), c.N(96, 400)
 	type caseRec struct {
 		cs  c06Case
@@ -647,6 +707,15 @@ func runC06(c *vh.Ctx) {
 				c.Dist("op:" + k)
 			}
 		}
+		for _, l := range cs.labels {
+			c06LazyDist(c, l, out.failed)
+		}
+		if cs.rich {
+			c.Dist("lazy-stream:cases")
+			if len(cs.t.NestedIgn) > 0 {
+				c.Dist("lazy-stream:nested-ignore-markers")
+			}
+		}
 		if len(out.events) == 0 {
 			inside++
 			if out.failed {
@@ -669,7 +738,7 @@ func runC06(c *vh.Ctx) {
 		}
 	}
 	c.Res.Notes = append(c.Res.Notes,
-		fmt.Sprintf("cases=%d (table %d, random %d); no situation of a repaired defect family exercised (reference-evaluator instrumentation)=%d of which failing=%d; such situations exercised=%d of which failing=%d", len(cases), nTable, len(cases)-nTable, inside, insideFailing, outside, outsideFailing),
+		fmt.Sprintf("cases=%d (table %d, random %d, lazy-matrix table %d, lazy matrix %d); no situation of a repaired defect family exercised (reference-evaluator instrumentation)=%d of which failing=%d; such situations exercised=%d of which failing=%d", len(cases), nTable, nRandom, len(lazyTable), len(cases)-nTable-nRandom-len(lazyTable), inside, insideFailing, outside, outsideFailing),
 		"situations of the repaired defect families exercised (cases): "+fmtCounts(eventCases),
 		"failing cases by class: "+fmtCounts(failingByClass))
 
@@ -690,7 +759,12 @@ func runC06(c *vh.Ctx) {
 		c.Res.Corresponded++
 		inDom := strings.HasPrefix(out, "dom=1 ")
 		agree := strings.HasSuffix(out, " agree")
-		if !inDom && len(r.cs.t.Ignored) > 0 && r.cs.p.Effect == ast.EffectPermit && strings.Contains(out, " domI=1 ") {
+		if len(r.cs.t.NestedIgn) > 0 {
+			// the Lean theorems complete unknowns and ignored request PARTS; a marker nested in the context stays what it
+			// is there, while the oracle completes it with values: the theorems say nothing about those completions
+			inDom = false
+			c.Dist("lean-domain:not-claimed(nested ignore marker)")
+		} else if !inDom && len(r.cs.t.Ignored) > 0 && r.cs.p.Effect == ast.EffectPermit && strings.Contains(out, " domI=1 ") {
 			inDom = true // the ignore-widening theorem applies
 			c.Dist("lean-domain:ignore-widening")
 		}
@@ -715,6 +789,117 @@ func runC06(c *vh.Ctx) {
 		}
 	}
 	c.Res.Notes = append(c.Res.Notes, fmt.Sprintf("cases inside the domain of the Lean soundness theorems (partialDomain, computed by the model)=%d of %d, of which failing the oracle=%d", leanIn, len(recs), leanInFailing))
+}
+
+// c06LazyDist records which cell of the lazy matrix a case was built for ("construct:st0/st1/st2").
+func c06LazyDist(c *vh.Ctx, label string, failed bool) {
+	i := strings.Index(label, ":")
+	if i < 0 {
+		return
+	}
+	c.Dist("lazy:" + label[:i])
+	for k, st := range strings.Split(label[i+1:], "/") {
+		c.Dist(fmt.Sprintf("lazy:%s@%d=%s", label[:i], k, st))
+	}
+	if failed {
+		c.Dist("lazy-failing:" + label)
+	}
+}
+
+// c06LazyCases: the lazy-matrix stream (vh/gen_partial3.go) over rich templates (vh/gen_partial2.go), in three regimes:
+// unknowns only; unknowns and ignored request parts; unknowns, ignored parts and ignore markers nested in the context.
+// It draws from its own random stream, so the table and the random cases before it are what they were.
+func c06LazyCases(c *vh.Ctx, pool []eval.Env, intens int) []c06Case {
+	g := vh.NewGen(rand.New(rand.NewSource(c.Seed*2654435761 + 606)))
+	g.PWrong = 0.02
+	var out []c06Case
+	cells := vh.AllLazyCells()
+	g.R.Shuffle(len(cells), func(i, j int) { cells[i], cells[j] = cells[j], cells[i] })
+	n := c.N(4500, 30000) * intens
+	for i := 0; i < n; i++ {
+		// round-robin over the matrix: every cell gets the same number of templates
+		cell := cells[i%len(cells)]
+		o := vh.RichOpts{PVarPart: 0.3, PCtxVar: 0.03, MaxVars: 2, PFeature: 0.55}
+		switch (i / len(cells)) % 4 { // beyond what the cell asks for
+		case 1:
+			o.PIgnPart = 0.2
+		case 2:
+			o.PNestIgn = 0.2
+		}
+		t := g.RichTemplateFor(func() eval.Env {
+			base := pool[g.R.Intn(len(pool))]
+			base.Principal, base.Action, base.Resource = g.UID(), g.UID(), g.UID()
+			return base
+		}, cell, o)
+		if len(t.VarKind) == 0 && !t.HasIgnore() {
+			continue
+		}
+		p, labels := g.LazyPolicyFor(t, &cell)
+		out = append(out, c06Case{name: fmt.Sprintf("lazy/%d", i), t: t, p: p, rich: true, labels: labels})
+		if g.R.Intn(3) == 0 {
+			p2, l2 := g.LazyPolicy(t)
+			out = append(out, c06Case{name: fmt.Sprintf("lazy/%d/b", i), t: t, p: p2, rich: true, labels: l2})
+		}
+	}
+	return out
+}
+
+// c06LazyTable: every lazily evaluated construct with an IGNORED operand (an ignored request part; an ignore marker
+// that is a context field; a marker inside a set) at every operand position next to an UNKNOWN operand, in the
+// when / forbid / unless / scoped variants.  Whatever the position, a permit must come out widened.
+func c06LazyTable() []c06Case {
+	V := vh.MkVar
+	var out []c06Case
+	variants := func(body string) []string {
+		return []string{
+			"permit(principal, action, resource) when { " + body + " };",
+			"forbid(principal, action, resource) when { " + body + " };",
+			"permit(principal, action, resource) unless { " + body + " };",
+			"permit(principal, action, resource) when { context.n == 1 } when { " + body + " };",
+		}
+	}
+	type tpl struct {
+		name   string
+		t      *vh.Template
+		ie, ib string // an ignored entity-valued operand, an ignored boolean operand
+	}
+	kinds := map[types.String]vh.Ty{"p": vh.TEntity, "k": vh.TBool}
+	part := tableTemplate(V("p"), nil, vh.MkIgnore(), rec("n", types.Long(1), "k", V("k")), kinds)
+	nest := tableTemplate(V("p"), nil, nil, rec("n", types.Long(1), "k", V("k"), "ig", vh.MkIgnore(), "igs", types.NewSet(vh.MkIgnore(), types.NewEntityUID("Group", "a"))), kinds)
+	nest.NestedIgn = []vh.NestedIgn{{Path: "context.ig", Kind: vh.TEntity, Base: types.NewEntityUID("User", "a")}, {Path: "context.igs[]", Kind: vh.TEntity, Base: types.NewEntityUID("User", "a")}}
+	shapes := []string{
+		"$UB && $IB", "$IB && $UB", "$UB || $IB", "$IB || $UB", "!($UB && $IB)", "!($UB || $IB)",
+		"if $UB then $IB else true", "if $UB then true else $IB", "if $UB then false else $IB", "if $IB then $UB else true", "if $UB then $IB else $IB",
+		"$UE is User in $IE", "!($UE is User in $IE)", "$UE is Group in $IE", "$UE is User in [$IE, Group::\"a\"]", "!($UE is User in [$IE])", "$IE is User in $UE",
+		"$UE is User in (if $UB then $IE else Group::\"a\")", "(if $UB then $IE else User::\"a\") == User::\"a\"", "(if $UB then User::\"a\" else $IE) == $UE",
+		"[$UE, $IE].contains(User::\"a\")", "{a: $UE, b: $IE}.a == User::\"a\"", "{a: $IE} has a && $UB", "$UB && ({a: $IE}.a == User::\"a\")",
+		"$UE == User::\"a\" && $UE in $IE", "$UE in $IE || $UB",
+	}
+	// the witness of C06_nested_ignore_not_widened_counterexample and its neighbours (known finding
+	// nested-ignore-consumed-whole; the last two reach the marker itself and are widened)
+	recn := tableTemplate(nil, nil, nil, rec("n", types.Long(1), "k", V("k"), "r", rec("a", vh.MkIgnore()), "ls", types.NewSet(types.Long(1), vh.MkIgnore())), kinds)
+	recn.NestedIgn = []vh.NestedIgn{{Path: "context.r.a", Kind: vh.TLong, Base: types.Long(1)}, {Path: "context.ls[]", Kind: vh.TLong, Base: types.Long(5)}}
+	for bi, body := range []string{"context.r == {a: 1}", "context.ls.contains(5)", "context.k && context.r == {a: 1}", "(if context.k then context.r else {a: 2}) == {a: 1}",
+		"context.k || [context.r].contains({a: 1})", "context.r.a == 1", "context.r has a && context.k"} {
+		for vi, tx := range variants(body) {
+			out = append(out, c06Case{name: fmt.Sprintf("lazy-table/nested-ignore/%d/%d", bi, vi), t: recn, p: mustPolicy(tx), rich: true})
+		}
+	}
+	for _, tp := range []tpl{
+		{"part", part, "resource", "resource == Doc::\"a\""},
+		{"field", nest, "context.ig", "context.ig == User::\"a\""},
+		{"set-member", nest, "context.igs", "context.igs.contains(User::\"a\")"},
+	} {
+		for si, sh := range shapes {
+			for ui, ub := range []string{"context.k", "principal == User::\"a\""} {
+				body := strings.NewReplacer("$UB", ub, "$IB", tp.ib, "$UE", "principal", "$IE", tp.ie).Replace(sh)
+				for vi, tx := range variants(body) {
+					out = append(out, c06Case{name: fmt.Sprintf("lazy-table/%s/%d/%d/%d", tp.name, si, ui, vi), t: tp.t, p: mustPolicy(tx), rich: true})
+				}
+			}
+		}
+	}
+	return out
 }
 
 func isAllScope(p *ast.Policy) bool {
